@@ -281,3 +281,15 @@ def identical_metamodules_stay_independent(H, where):
     H.check("edited_embedded_project_saved", a2.project.modules[1].controller_values["volume"] == v)
     H.check("other_embedded_project_unchanged", b2.project.modules[1].controller_values["volume"] == 256)
     H.cover("reached")
+
+
+@contract("metamodule_canary", ["C15"], targets=["rv.modules.metamodule:MetaModule.specialized_iff_chunks"], canary=True)
+def metamodule_canary(H, _):
+    """False claim: a label survives also beyond the exposed controllers (labels of hidden controllers are not written)."""
+    m = MetaModule()
+    m.user_defined_controllers = 1
+    m.user_defined[0].label = "kept"
+    m.user_defined[1].label = "hidden"
+    k = H.choice("which", [0, 1])
+    q = H.call(m.clone)
+    H.check("canary_every_label_survives", q.user_defined[k].label == m.user_defined[k].label)
